@@ -134,8 +134,8 @@ class FnModel:
                 d0 = self.decls.get(did)
                 if d0 is not None and kids(d0) and not re.search(r"\b(long|int|short|size_t|ptrdiff_t|unsigned)\b", d0.get("t", "")):
                     o0 = self.origin(kids(d0)[0], depth + 1)
-                    if o0.startswith("it("):
-                        return o0          # for(auto it = X.begin(); ...): an iterator, same descriptor as the while form
+                    if o0.startswith(("it(", "end(")):
+                        return o0          # for(auto it = X.begin(), end = X.end(); ...): iterators, same descriptors as the while form
                 return "L" if self.is_level_loop(self.loop_vars[did]) else "loopvar"   # (sym() distinguishes loop variables by declaration)
             if did in self.lambda_bind:
                 return self.lambda_bind[did]        # parameter of a local lambda being expanded at one of its call sites
